@@ -19,22 +19,45 @@ def resJ : Except NameErr (Person × Bool) → Json
   | .error e => obj [("error", Json.str (errName e))]
   | .ok (p, r) => obj [("person", personJ p), ("too_many_commas", Json.bool r)]
 
+/-- reference values for one text that is tokenised: the tokens by the rule (`Spec.nameTokens`, stated
+from the property text; meaningful when every brace group is closed) and by the model of
+`split_tex_string` -/
+def toksJ (t : Str) : Json :=
+  obj [("rule", strs (Spec.nameTokens t)), ("closed", Json.bool (Spec.groupsClosed t)),
+       ("model", strs (splitTex .space t))]
+
+def specPersonJ (s : Str) : Json :=
+  if strip s = [] then personJ {} else personJ (Spec.split (strip s)).1
+
 /-- `Person(s)` -/
 def person (j : Json) : Except String Json := do
   let s ← getStr j "s"
   let tokens := splitTex .space (strip s)
   let parts := splitTex .comma (strip s)
+  let regroup (ps : List Str) := if ps.length > 3 then ps.take 2 ++ [joinWith [' '] (ps.drop 2)] else ps
   pure (obj [("out", resJ (mkPerson s [] [] [] [] [])),
-             ("spec", obj [("person", if strip s = [] then personJ {} else personJ (Spec.split (strip s)).1),
+             ("spec", obj [("person", specPersonJ s),
                            ("too_many_commas", Json.bool (if strip s = [] then false else (Spec.split (strip s)).2)),
                            ("tokens", strs tokens), ("comma_parts", strs parts),
-                           ("part_tokens", arr ((if parts.length > 3 then parts.take 2 ++ [joinWith [' '] (parts.drop 2)] else parts).map
-                              fun p => strs (splitTex .space p)))])])
+                           ("part_tokens", arr ((regroup parts).map fun p => strs (splitTex .space p))),
+                           ("closed", Json.bool (Spec.groupsClosed (strip s))),
+                           ("rule_tokens", strs (Spec.nameTokens (strip s))),
+                           ("rule_comma_parts", strs (Spec.nameCommaParts (strip s))),
+                           ("rule_part_tokens", arr ((regroup (Spec.nameCommaParts (strip s))).map fun p => strs (Spec.nameTokens p)))])])
 
-/-- `Person(first=…, middle=…, prelast=…, last=…, lineage=…)` -/
+/-- `Person(s, first=…, middle=…, prelast=…, last=…, lineage=…)` -/
 def personParts (j : Json) : Except String Json := do
-  pure (obj [("out", resJ (mkPerson (← getStr j "s") (← getStr j "first") (← getStr j "middle")
-        (← getStr j "prelast") (← getStr j "last") (← getStr j "lineage")))])
+  let s ← getStr j "s"
+  let f ← getStr j "first"
+  let m ← getStr j "middle"
+  let p ← getStr j "prelast"
+  let l ← getStr j "last"
+  let g ← getStr j "lineage"
+  pure (obj [("out", resJ (mkPerson s f m p l g)),
+             ("spec", obj [("person", specPersonJ s),
+                           ("too_many_commas", Json.bool (if strip s = [] then false else (Spec.split (strip s)).2)),
+                           ("first", toksJ f), ("middle", toksJ m), ("prelast", toksJ p), ("last", toksJ l),
+                           ("lineage", toksJ g)])])
 
 def handlers : List (String × (Json → Except String Json)) := [("person", person), ("personparts", personParts)]
 
